@@ -6,7 +6,7 @@ PROPS=${@:-C06 C07 C10 C11 C12}
 cd /repo || exit 2
 git diff --quiet || { echo "/repo is dirty"; exit 2; }
 git apply "$P" || { echo "patch does not apply"; exit 2; }
-trap 'git -C /repo checkout -q -- .; git -C /repo status --short' EXIT
+trap 'git -C /repo checkout -q -- .; git -C /repo clean -fdq; git -C /repo status --short' EXIT
 cd /verif
 for p in $PROPS; do
   out=$(bin/check $p --no-evidence 2>&1); rc=$?
